@@ -715,6 +715,13 @@ def m_iter_next(ex, argv):
     it = argv[0]
     src = ex.iter_src.get(it[1], it)
     k = sum(1 for e in ex.cur_events if e[0] == "call" and e[1] == "next" and e[2] and e[2][0] == it)
+    if isinstance(src, tuple) and src and src[0] == "zip":
+        # zip(a, b): pairs (a[k], b[k]); the two collections are assumed to have the same length (stated by the caller)
+        sa, sb = src[1], src[2]
+        n = ex.len_of(sa)
+        tag = ex.fresh("Int", "nx")
+        ex.side.append(f"(= {tag} (ite (< {k} {n}) 1 0))")
+        return ("enum", "Option", tag, {"Some": ("tuple", [ex.proj_of(sa, f"[{k}]"), ex.proj_of(sb, f"[{k}]")])})
     n = ex.len_of(src)
     elem = ex.proj_of(src, f"[{k}]")
     if "Enumerate" in (ex.cur_callee or ""):
@@ -722,6 +729,17 @@ def m_iter_next(ex, argv):
     tag = ex.fresh("Int", "nx")
     ex.side.append(f"(= {tag} (ite (< {k} {n}) 1 0))")
     return ("enum", "Option", tag, {"Some": elem})
+
+
+def m_zip(ex, argv):
+    """a.zip(b) for two iterator instances (or collections)"""
+    if len(argv) != 2 or argv[0][0] != "opaque" or argv[1][0] != "opaque":
+        return ex.opq()
+    sa = ex.iter_src.get(argv[0][1], argv[0])
+    sb = ex.iter_src.get(argv[1][1], argv[1])
+    it = ex.opq()
+    ex.iter_src[it[1]] = ("zip", sa, sb)
+    return it
 
 
 def m_new_iter(ex, argv):
